@@ -7,6 +7,26 @@ V = os.path.dirname(os.path.dirname(os.path.abspath(__file__)))
 TECH = "deterministic simulation with fault injection: "
 
 checks = {
+ "C09": dict(level="exploration", design="§4 C09",
+   technique=TECH + "seeded cache operation histories with snapshot/restore (restart) injected between operations, refinement against a reference cache, failure-atomicity check",
+   text="Seeded operation histories over the cache API (values across the 16-bit boundary, limits, capacities) checked operation by operation against a small reference cache: limit and capacity enforcement, exact byte accounting, one scope per symbol, release on Pop/Reset, and unchanged exported state after every rejected operation; a sub-batch serialises and restores the cache between operations. The cache is sequential: the family contributes histories, restart as a fault and the model, not schedules. Sampling.",
+   note="Trusted: the reference cache (maps with limits). Acceptance of an operation the model accepts is not demanded (counted as probe)."),
+ "C10": dict(level="exploration", design="§4 C10",
+   technique=TECH + "one operation history in lock-step on memory, filesystem (simulated disk, text and binary keys) and Postgres (fake server) with handle reopen, refinement against a reference map",
+   text="Seeded histories of Put/Get/SetPrefix/SetSession/SetLanguage/SetLock/seal/Dump/reopen applied in lock-step to every backend through two handles with independent sticky context and to a reference map; every Get, every refused locked write, every not-found error and every filesystem listing must agree with the map and hence with each other. Sampling.",
+   note="Trusted: reference map keyed by (type, session if sessioned, key, language if translated); pgfake stands in for Postgres; well-formed keys and dot-free session ids only (adversarial ones are C11)."),
+ "C11": dict(level="exploration", design="§4 C11",
+   technique=TECH + "adversarial key/session histories over all backends with reopen, unique tagged values, plus an injectivity sweep over a small adversarial alphabet",
+   text="Every value written is tagged with its (type, session, key); a read or a per-session listing that returns a value tagged with a different triple is a violation, as is any path addressed outside the store directory on the simulated disk. The sweep is exhaustive over the stated alphabet and length; histories are sampled. Three encoding collisions that cannot be repaired without breaking stored data are listed as known findings (reported as KNOWN-FINDING, not suppressing other shapes).",
+   note="Trusted: collision-shape classifier used only to match known findings; triples a backend rejects are skipped on that backend."),
+ "C12": dict(level="fault_enumeration", design="§4 C12",
+   technique=TECH + "crash (process death) injected at every file-system micro-step and write offset of every save on a simulated disk; old-or-new record oracle plus continuation twins",
+   text="For every request of sampled histories the real db/fs (compiled against the simulated os) is crashed at every micro-step and byte offset of every save; the record must be byte-equal to a complete record from before or after the interrupted save, other records untouched, and a fresh engine on the crashed disk must continue like a twin started from the old or the new record. Exhaustive per save within the stated offset rule; histories sampled.",
+   note="Trusted: simfs (in-memory model of open/create/truncate/write/close/rename/remove with process-death semantics, no lost un-synced data); the AST import rewrite of db/fs."),
+ "C13": dict(level="fault_enumeration", design="§4 C13",
+   technique=TECH + "every single and (thorough: every, quick: sampled) double failing driver call on an in-process transactional fake of pgx, transaction log + acknowledged-write model",
+   text="For sampled operation histories on the real db/postgres every primitive driver call (BeginTx, Exec, Query, Next, Scan, Commit incl. in-doubt, Rollback) is made to fail once, and every pair in the thorough tier; the faulted operation must report an error, no call may reach an ended transaction, every transaction must be ended by commit/rollback, later single operations must succeed, acknowledged writes must not be lost, and all-success explicit transactions must be visible at Stop and invisible after Abort. One behaviour pinned by the existing tests (multi-operation mode persists after Stop/Abort) loses acknowledged writes and is listed as a known finding.",
+   note="Trusted: pgfake (stub of Postgres + pgx objects; read-committed, statement error aborts the transaction); the acknowledged/in-doubt model."),
  "C01": dict(level="exploration", design="§4 C01",
    technique=TECH + "seeded histories with restarts, failing external calls and client garbage; size invariant on every Flush plus unsized differential twin",
    text="Seeded search over generated applications, contents, page indices and input histories with the output size drawn around the unlimited page lengths; invariant len(output) <= OutputSize on every page handed to the client, and comparison with an unsized twin at the same position to rule out silent truncation. Sampling, not proof.",
